@@ -96,10 +96,16 @@ def build(s, fr, top=True):
         if s.get('via', 'operator') == 'operator':
             # the compound shares region1's meta: the model gives it region1's include flag
             assert s['inc'] == s['a']['inc'], 'operator-built compound must carry region1 include flag'
+            VIA[0] += 1
+            if VIA[0] % 2:       # the named methods and the operators are the same operations
+                return {'and': a.intersection, 'or': a.union, 'xor': a.symmetric_difference}[s['op']](b)
             return {'and': a & b, 'or': a | b, 'xor': a ^ b}[s['op']]
         from regions import RegionMeta
         return R.CompoundPixelRegion(a, b, OPS[s['op']], meta=meta if meta is not None else RegionMeta())
     raise ValueError(k)
+
+
+VIA = [0]
 
 
 def window(wlo, whi):
